@@ -72,7 +72,14 @@ class WorkCopy:
         shutil.rmtree(self.root, ignore_errors=True)
         os.makedirs(self.src)
         os.makedirs(self.root + '/out')
-        sh(['rsync', '-a', '--delete', '--exclude', '.git', REPO + '/', self.src + '/'])
+        if os.environ.get('VERIF_FROM_HEAD'):
+            # development aid only: /repo's committed HEAD instead of its working tree (used while a seeded change
+            # is applied to the working tree by another process). Registered checks never set this.
+            subprocess.run('git -C %s archive HEAD | tar -x -C %s' % (REPO, self.src), shell=True, check=True)
+            for f in ('go.mod', 'go.sum'):
+                shutil.copy(REPO + '/' + f, self.src + '/' + f)
+        else:
+            sh(['rsync', '-a', '--delete', '--exclude', '.git', REPO + '/', self.src + '/'])
         gm = open(self.src + '/go.mod').read()
         gm = re.sub(r'(?m)^go 1\.\d+\s*$', 'go 1.18', gm)
         gm += ('\nreplace github.com/grailbio/base => %s/compat/mod/base\n'
